@@ -4,6 +4,7 @@ Case lines (format documented in harness/overlay/sdk/go/arvados/zz_verif_c13_tes
 
   det  <maxBlockSize> <ev;ev;...>                      deterministic schedule, compared with the Lean model
   free <maxBlockSize> <throttle> <seed> <failpct> <prologue>|<w0 ops>|<w1 ops>|...   free-running goroutines
+  cow  <op;op;...>                                     memSegment Truncate/WriteAt/Slice/hand-off/drop against the heap model
 
 `PlainFS`/`judge` below are the property's plain byte-array-per-file model written from the property
 text (same reading as C08's); the oracle replays the implementation's outputs on it.
@@ -19,6 +20,11 @@ RULE = ("det: schedules of 20-140 (thorough -320) events for 2-8 worker goroutin
         "shared directories + flush/save callers) running unsynchronised under the race detector with "
         "throttle 1-4 and randomly delayed / failing PutB; non-trivial = a det case in which at least two "
         "background writes completed between foreground operations, or a free case with >= 2 writers; "
+        "cow: 5-40 Truncate/WriteAt/Slice/hand-off/drop operations on real memSegments (sizes around 0, the "
+        "allocator's size classes and Truncate's 1 KiB / 4 KiB capacities; ~4 % operations that must panic), "
+        "observing len, cap, content, flushing flag, identity of the backing array and whether every "
+        "handed-off buffer still holds its bytes; non-trivial = a hand-off followed by a write or resize of "
+        "that segment; "
         "distinct = distinct case line")
 ASSUMPTIONS = [
     "free mode: the workers' operation streams commute (every worker touches only names carrying its own id; the "
@@ -27,7 +33,9 @@ ASSUMPTIONS = [
     "a saved manifest is judged through its loaded contents (C09/C10 own the text format)",
     "deadlock detector: free mode reports a deadlock when no worker has started or finished an operation for 3 s AND every goroutine of the package is parked on a mutex/channel/WaitGroup (two goroutine dumps 50 ms apart), or after 150 s; det mode has a 60 s deadline per event; in det mode a throttle slot counts as leaked when it is still taken although every non-parked PutB has returned and every goroutine of the package is parked (or after 8 s)",
 ]
-TRUSTED = ["executable MD5 in Lean (locators of flushed blocks), compared with Go crypto/md5 through the shapes",
+TRUSTED = ["Go 1.23 allocator size-class table in the Lean driver (capacity of append([]byte(nil), buf...)); every "
+           "capacity is compared in the cow run",
+           "executable MD5 in Lean (locators of flushed blocks), compared with Go crypto/md5 through the shapes",
            "the Keep stub of the Go driver (parks / delays / fails PutB, snapshots the buffer on entry and compares "
            "it on exit) and the driver's white-box scan that matches parked PutB calls to flush channels",
            "the Go race detector and runtime scheduler for what mode 2 exercises"]
@@ -625,7 +633,105 @@ def _content_in(states, p, c):
     return False
 
 
+def cow_content(b):
+    if len(b) <= 24:
+        return bytes(b).hex()
+    return "k%d" % (sum((i + 1) * x for i, x in enumerate(b)) % 1000003)
+
+
+def oracle_cow(case, impl):
+    """Plain reading: a memSegment is a byte string; Truncate cuts or zero-extends, WriteAt overwrites
+    inside the current length, Slice copies; a buffer handed to a background writer must keep its bytes,
+    and a segment that has just been written or grown must not share its array with such a buffer
+    (anchor: "Truncate/WriteAt allocate a new buffer while a flush shares the old one")."""
+    if " RACE" in impl:
+        return "the race detector reported a data race"
+    ops = case.split(" ")[1].split(";")
+    toks = impl.split(";")
+    segs = [bytearray()]
+    nshared = 0
+    for k, op in enumerate(ops):
+        if k >= len(toks):
+            return "op %d: no result" % k
+        a = op.split(",")
+        i = int(a[1])
+        must_panic = i >= len(segs)
+        if not must_panic:
+            if a[0] == "w":
+                must_panic = int(a[3]) + len(a[2]) // 2 > len(segs[i])
+            elif a[0] == "s":
+                must_panic = int(a[2]) > len(segs[i])
+        if toks[k] == "panic":
+            if not must_panic:
+                return "op %d (%s) panicked" % (k, op[:40])
+            if k != len(toks) - 1:
+                return "results after a panic"
+            return None
+        if must_panic:
+            return "op %d (%s) must panic (out of range) but returned %s" % (k, op[:40], toks[k][:60])
+        if a[0] == "t":
+            n = int(a[2])
+            if n <= len(segs[i]):
+                del segs[i][n:]
+            else:
+                segs[i] += bytes(n - len(segs[i]))
+        elif a[0] == "w":
+            d = bytes.fromhex(a[2])
+            segs[i][int(a[3]):int(a[3]) + len(d)] = d
+        elif a[0] == "s":
+            off, l = int(a[2]), int(a[3])
+            piece = bytes(segs[i][off:off + l])
+            segs.append(bytearray(piece + bytes(l - len(piece))))
+        elif a[0] == "h":
+            nshared += 1
+        elif a[0] == "d":
+            del segs[i]
+        sg, _, sh = toks[k].partition(":")
+        got = [] if sg == "-" else [x.split(".") for x in sg.split("/")]
+        shs = [] if sh == "-" else [x.split(".") for x in sh.split("/")]
+        if len(got) != len(segs):
+            return "op %d: %d segments, expected %d" % (k, len(got), len(segs))
+        for j, (g, want) in enumerate(zip(got, segs)):
+            if int(g[1]) != len(want) or g[4] != cow_content(want):
+                return "op %d (%s): segment %d holds %s bytes %s, expected %d bytes %s" % (
+                    k, op[:40], j, g[1], g[4], len(want), cow_content(want))
+            if int(g[2]) < int(g[1]):
+                return "op %d: capacity below length" % k
+        if len(shs) != nshared:
+            return "op %d: %d handed-off buffers on record, expected %d" % (k, len(shs), nshared)
+        for j, h in enumerate(shs):
+            if h[2] != "1":
+                return ("op %d (%s): the buffer of hand-off %d was modified after it was given to the background "
+                        "writer (copy-on-write rule broken)" % (k, op[:40], j))
+        if (a[0] == "w" or a[0] == "t") and got[i][0] != "z" and cow_resized(a, k, toks):
+            if any(h[0] == got[i][0] for h in shs):
+                return ("op %d (%s): the segment still shares its array %s with a buffer handed to a background "
+                        "writer after being written / grown" % (k, op[:40], got[i][0]))
+    if len(toks) != len(ops):
+        return "%d results for %d ops" % (len(toks), len(ops))
+    return None
+
+
+def cow_resized(a, k, toks):
+    """WriteAt always counts; Truncate counts when it grew the segment (length before < n)"""
+    if a[0] == "w":
+        return True
+    if k == 0:
+        return int(a[2]) > 0
+    prev = toks[k - 1].partition(":")[0]
+    if prev == "-":
+        return False
+    segs = prev.split("/")
+    i = int(a[1])
+    return i < len(segs) and int(segs[i].split(".")[1]) < int(a[2])
+
+
 def oracle(case, impl):
+    if case.startswith("cow "):
+        # `panic` is a legitimate result token here (an out-of-range operation must panic)
+        if impl.startswith(("CRASH", "bad-op")) or impl == "":
+            return "implementation " + impl[:300]
+        return oracle_cow(case, impl)
     why = oracle_common(impl)
     if why:
         return why
@@ -643,6 +749,8 @@ def strip_shapes(body):
 
 
 def compare(case, impl, model):
+    if case.startswith("cow "):
+        return impl == model
     if case.startswith("det "):
         body = impl.split(" ")[0]
         marks = impl.split(" ")[1:]
@@ -706,6 +814,17 @@ def compare(case, impl, model):
 
 
 def nontrivial_key(case, impl):
+    if case.startswith("cow "):
+        handed = set()
+        for op in case.split(" ")[1].split(";"):
+            a = op.split(",")
+            if a[0] == "h":
+                handed.add(a[1])
+            elif a[0] in ("w", "t") and a[1] in handed:
+                return hashlib.md5(case.encode()).hexdigest()
+            elif a[0] == "d":
+                handed = set()
+        return None
     if case.startswith("det "):
         body = impl.split(" ")[0]
         toks = body.split(";")
@@ -1017,9 +1136,73 @@ def gen_free(rng, tier, maxb=None):
     return "free %d %d %d %d %s" % (maxb, thr, rng.getrandbits(31), failpct, "|".join([";".join(pro)] + streams))
 
 
+COW_SIZES = [0, 1, 2, 3, 5, 7, 8, 9, 15, 16, 17, 24, 25, 32, 33, 48, 100, 1000, 1023, 1024, 1025, 1500, 4095, 4096, 4097, 5000]
+
+
+def gen_cow(rng, tier, nops=None):
+    """steered by the plain lengths so that most operations are legal"""
+    n = nops or rng.randint(5, 40)
+    lens = [0]
+    ops = []
+    data = Data(rng)
+    small = rng.random() < 0.5      # half of the cases stay below 64 bytes (many operations on few bytes)
+
+    def size():
+        if small or rng.random() < 0.5:
+            return rng.choice([0, 1, 2, 3, 5, 7, 8, 9, 15, 16, 17, 24, 25, 32, 33, 48])
+        return rng.choice(COW_SIZES)
+
+    while len(ops) < n:
+        if not lens:
+            ops.append("t,0,1")      # must panic: no segment left
+            break
+        i = rng.randrange(len(lens))
+        panics = False
+        if rng.random() < 0.01:
+            i = len(lens)            # must panic
+            panics = True
+        q = rng.random()
+        if q < 0.32:
+            cur = lens[i] if i < len(lens) else 0
+            nn = rng.choice([size(), size(), cur + 1, max(0, cur - 1), cur, cur + rng.randint(0, 40)])
+            ops.append("t,%d,%d" % (i, nn))
+            if i < len(lens):
+                lens[i] = nn
+        elif q < 0.62:
+            cur = lens[i] if i < len(lens) else 0
+            l = rng.choice([0, 1, 1, 2, cur, rng.randint(0, max(0, min(cur, 40)))])
+            l = min(l, cur, 64)
+            off = rng.randint(0, cur - l)
+            if rng.random() < 0.03:
+                off = cur - l + 1    # must panic: overflows the segment
+                panics = True
+            ops.append("w,%d,%s,%d" % (i, data.take(l).hex(), off))
+        elif q < 0.72:
+            cur = lens[i] if i < len(lens) else 0
+            off = rng.randint(0, cur)
+            if rng.random() < 0.03:
+                off = cur + 1        # must panic
+                panics = True
+            l = rng.choice([0, 1, cur - off if cur >= off else 0, rng.randint(0, 40)])
+            ops.append("s,%d,%d,%d" % (i, off, l))
+            if i < len(lens) and off <= cur:
+                lens.append(l)
+        elif q < 0.92:
+            ops.append("h,%d" % i)
+        else:
+            ops.append("d,%d" % i)
+            if i < len(lens):
+                del lens[i]
+        if panics:
+            break
+    return "cow " + ";".join(ops)
+
+
 def generate(rng, tier):
     cases = []
     ndet, nfree = (380, 100) if tier == "quick" else (9000, 2200)
+    for _ in range(300 if tier == "quick" else 6000):
+        cases.append(gen_cow(rng, tier))
     for _ in range(ndet):
         cases.append(gen_det(rng, tier))
     for _ in range(nfree):
@@ -1035,6 +1218,20 @@ def describe(cases, impl):
          "free_max_concurrent_putb": {}, "ambiguous_skipped": 0}
     for c, r in zip(cases, impl):
         f = c.split(" ")
+        if f[0] == "cow":
+            d["cow_cases"] = d.get("cow_cases", 0) + 1
+            for op in f[1].split(";"):
+                k = "cow_op_" + op[0]
+                d[k] = d.get(k, 0) + 1
+            d["cow_panics"] = d.get("cow_panics", 0) + (r or "").endswith("panic")
+            toks = (r or "").split(";")
+            for a, b in zip(toks, toks[1:]):
+                # a segment that changed its backing array while flushing (copy-on-write happened)
+                sa, sb = a.partition(":")[0].split("/"), b.partition(":")[0].split("/")
+                for x, y in zip(sa, sb):
+                    if ".f." in x and ".n." in y and x.split(".")[0] != y.split(".")[0]:
+                        d["cow_reallocations_of_flushing_segments"] = d.get("cow_reallocations_of_flushing_segments", 0) + 1
+            continue
         d["maxBlockSize"][f[1]] = d["maxBlockSize"].get(f[1], 0) + 1
         if f[0] == "det":
             d["det_cases"] += 1
@@ -1089,6 +1286,13 @@ def describe(cases, impl):
 def neighbours(case, rng):
     f = case.split(" ")
     out = []
+    if f[0] == "cow":
+        ops = f[1].split(";")
+        if len(ops) > 2:
+            out.append("cow " + ";".join(ops[:rng.randint(2, len(ops))]))
+        out.append(gen_cow(rng, "quick", nops=rng.randint(3, 12)))
+        out.append(gen_cow(rng, "quick"))
+        return out
     if f[0] == "det":
         evs = f[2].split(";")
         if len(evs) > 4:
